@@ -120,6 +120,36 @@ func c02(c *core.Ctx) {
 		if nWF == 0 {
 			c.Fail("httpgrpc:write-failed-flag", token.NoPos, "ANCHOR-MISSING: no write-failed flag set after the frame write in the HTTP server stream's SendMsg")
 		}
+		// in-process: a frame write gives up only when the call's own context ends — the library puts no timer of
+		// its own on the context it writes under (a merely slow reader would lose the final frames, the status among them)
+		nFW := 0
+		for _, fn := range p.LibFuncs("inprocgrpc") {
+			core.Instrs(fn, func(in ssa.Instruction) {
+				call, ok := in.(*ssa.Call)
+				if !ok || call.Call.StaticCallee() == nil || !isInprocFrameWriter(call.Call.StaticCallee()) || isInprocFrameWriter(fn) {
+					return
+				}
+				for i, a := range call.Call.Args {
+					if core.TypeStr(a.Type()) != "context.Context" || core.IsNilConst(a) {
+						continue
+					}
+					nFW++
+					tr := ctxTrace(p, a)
+					timer := ""
+					for l := range tr.Layers {
+						if l == "context.WithTimeout" || l == "context.WithDeadline" {
+							timer = l
+						}
+					}
+					key := fmt.Sprintf("%s:frame-write#%d:ctx%d:no-library-timer", core.FuncName(fn), nFW, i)
+					if timer != "" {
+						c.Fail(key, call.Pos(), "the context a frame is written under passes through %s added by the library: when that timer fires the write is abandoned although the call is alive, so a slow receiver loses frames (the final status among them) and sees a clean end instead", timer)
+					} else {
+						c.Ok(key, call.Pos(), "written under a context that ends only with the call (layers %v)", tr.layerList())
+					}
+				}
+			})
+		}
 		c.EndRule()
 	}
 	// ---------------------------------------------------------------- R5
